@@ -85,6 +85,14 @@ def theorem_ranges(path):
     return out
 
 
+# which generated-table sections (tools/translate.py) each property's theorems rest on
+TABLE_DEPENDS = {
+    "C01": ("patch", "consts"), "C02": ("shapetype", "patch"), "C03": ("point_sizes", "patch"),
+    "C05": ("consts",), "C06": ("shapetype", "shape_tables", "has_shapetype"), "C07": ("sizes", "point_sizes", "consts"),
+    "C09": ("consts",), "C16": ("patch",), "C17": ("sizes", "consts", "alloc_sites"), "C18": ("sizes",), "C19": ("shapetype",),
+}
+
+
 def prove(prop, tier, log):
     """returns dict(obligations=[names], discharged=[names], failures=[text], checker_cmd=str)"""
     obl = load_json(os.path.join(LEAN, "obligations.json"), {})
@@ -98,6 +106,15 @@ def prove(prop, tier, log):
         if rc != 0:
             res["failures"].append("translator: " + out.strip())
             res["translator_failed"] = True
+        else:
+            # sections of the generated tables that could not be re-derived from the source keep
+            # their last successful derivation: a broken tie for the properties that rest on them
+            st = load_json(os.path.join(WORK, "translate_status.json"), {})
+            stale = [f"{sec}: {msg}" for sec, msg in st.items() if msg != "ok" and sec in TABLE_DEPENDS.get(prop, ())]
+            if stale:
+                res["failures"].append("translator: generated table section(s) not re-derived from the source (tie by correspondence only): " + "; ".join(stale))
+                res["translator_failed"] = True
+                log.append("stale sections for this property: " + "; ".join(stale))
         t0 = time.time()
         rc, out, err = sh(["lake", "build", module, "shpdriver"], cwd=LEAN, timeout=3000)
         log.append(f"lake build {module} shpdriver: rc={rc} ({time.time()-t0:.1f}s)")
